@@ -68,7 +68,11 @@ func (fr *frame) call(v ssa.Value, c *ssa.CallCommon, st *State, g string, isDef
 			argT = append(argT, a.Type())
 		}
 		key := ifaceMethodKey(c.Value.Type(), c.Method.Name())
-		if d, ok := vc.P.Funcs[key]; ok {
+		d, ok := vc.P.Funcs[key]
+		if !ok {
+			d, ok = vc.P.Externs[key]
+		}
+		if ok {
 			fr.applyContract(d, nil, c.Method.Type().(*types.Signature), append([]string{"self"}, paramNames(c.Method.Type().(*types.Signature))...), args, argT, c.Args, st, g, v, pos, key)
 			return
 		}
@@ -184,6 +188,22 @@ func (fr *frame) dynamicCall(v ssa.Value, c *ssa.CallCommon, sig *types.Signatur
 	if root.contract != nil {
 		for _, cl := range root.contract.Get("assume-call") {
 			txt := strings.TrimSpace(cl.Text)
+			if strings.HasPrefix(txt, "ensures") {
+				body := strings.TrimSpace(strings.TrimPrefix(txt, "ensures"))
+				e, err := ParseExpr(body)
+				if err != nil {
+					vc.specErrors = append(vc.specErrors, "assume-call ensures: "+err.Error())
+					continue
+				}
+				vc.note("ASSUMED on " + root.contract.Name + ": every call through a function value ensures " + body)
+				env := root.specEnvAt(st)
+				bindArgs(env)
+				if len(res) > 0 {
+					env.vars["result"] = sval{t: res[0], typ: sig.Results().At(0).Type()}
+				}
+				vc.assumeG(g, env.trBool(e))
+				continue
+			}
 			if !strings.HasPrefix(txt, "preserves") {
 				continue
 			}
@@ -485,6 +505,7 @@ func (fr *frame) applyContract(d *Decl, callee *ssa.Function, sig *types.Signatu
 	}
 	fr.callOrd[key]++
 	ord := fr.callOrd[key]
+	fr.atCallClauses(key, st, g, args, argT, pos)
 	ctxFn := callee
 	if ctxFn == nil || ctxFn.Pkg == nil {
 		ctxFn = fr.fn
@@ -559,8 +580,60 @@ func (fr *frame) applyContract(d *Decl, callee *ssa.Function, sig *types.Signatu
 		f := post.trBool(c.E)
 		vc.assumeG(g, f)
 	}
+	// ghost updates declared by the callee: "ghost-set name value"
+	for _, c := range d.Get("ghost-set") {
+		f := strings.Fields(c.Text)
+		if len(f) == 2 {
+			val := f[1]
+			if gd, ok := vc.P.Ghosts[f[0]]; ok && gd.Sort == "Bool" {
+				if val == "0" {
+					val = "false"
+				} else if val == "1" {
+					val = "true"
+				}
+			}
+			cur := ghostGet(st, f[0], vc.ghostInit(f[0]))
+			st.ghost[f[0]] = vc.define(vc.fresh("ghost_"+f[0]), vc.ghostSort(f[0]), "(ite "+g+" "+val+" "+cur+")")
+		}
+	}
 	// bind clauses of the enclosing contract: name the results of the n-th call of key
-	fr.rootFr.recordBind(key, fr.rootFr.callSeq(key), res, sig)
+	fr.rootFr.recordBind(key, fr.rootFr.callSeq(key), res, sig, args, argT, g)
+}
+
+// atCallClauses: `at-call <callee> requires[label] e` of the enclosing contract, over a0, a1, ... (actual arguments,
+// receiver first) and the caller's own names, evaluated in the state before the call.
+func (fr *frame) atCallClauses(key string, st *State, g string, args []string, argT []types.Type, pos token.Pos) {
+	root := fr.rootFr
+	if root.contract == nil {
+		return
+	}
+	vc := fr.vc
+	for _, cl := range root.contract.Get("at-call") {
+		txt := strings.TrimSpace(cl.Text)
+		if strings.HasPrefix(txt, "dynamic") {
+			continue
+		}
+		i := strings.Index(txt, " requires")
+		if i < 0 {
+			continue
+		}
+		target := strings.TrimSpace(txt[:i])
+		if target != key && "engine."+target != key && "prolog."+target != key && shortKey(key) != target && !strings.HasSuffix(key, "."+target) {
+			continue
+		}
+		lab, body := splitLabel(strings.TrimSpace(txt[i+len(" requires"):]))
+		e, err := ParseExpr(body)
+		if err != nil {
+			vc.specErrors = append(vc.specErrors, "at-call "+target+": "+err.Error())
+			continue
+		}
+		env := root.specEnvAt(st)
+		for k := range args {
+			env.vars[fmt.Sprintf("a%d", k)] = sval{t: args[k], typ: argT[k]}
+		}
+		root.atCallN++
+		vc.oblige("at-call", fmt.Sprintf("%s#%d:%s", shortKey(key), root.atCallN, lab), g, env.trBool(e), "at the call of "+key+": "+body, root.props, posOf(fr.fn, pos))
+	}
 }
 
 func shortKey(k string) string {
@@ -668,7 +741,7 @@ func (fr *frame) applyModifies(items []modItem, env *specEnv, st *State, ctxFn *
 				old := vc.heapOf(st, c)
 				vc.havocClass(st, c)
 				nw := st.heap[c]
-				vc.assume(fmt.Sprintf("(forall ((a Int)) (! (=> (not (= (ea_arr a) (s_arr %s))) (= (select %s a) (select %s a))) :pattern ((select %s a))))", sv.t, nw, old, nw))
+				vc.assume(fmt.Sprintf("(forall ((a Int)) (! (=> (not (and (= (akind a) 1) (= (ea_arr a) (s_arr %s)))) (= (select %s a) (select %s a))) :pattern ((select %s a))))", sv.t, nw, old, nw))
 			}
 		}
 	}
@@ -882,6 +955,7 @@ func (fr *frame) builtin(v ssa.Value, b *ssa.Builtin, c *ssa.CallCommon, st *Sta
 			fr.assumeTypeFacts(g, st, v.Type(), fr.vals[v])
 		}
 	case "append":
+		fr.atCallClauses("append", st, g, []string{arg(0), arg(1)}, []types.Type{c.Args[0].Type(), c.Args[1].Type()}, c.Pos())
 		fr.appendBuiltin(v, c, st, g)
 	case "copy":
 		// copy(dst, src): havoc dst elements
@@ -890,7 +964,7 @@ func (fr *frame) builtin(v ssa.Value, b *ssa.Builtin, c *ssa.CallCommon, st *Sta
 			old := vc.heapOf(st, cl)
 			vc.havocClass(st, cl)
 			nw := st.heap[cl]
-			vc.assume(fmt.Sprintf("(forall ((a Int)) (! (=> (not (= (ea_arr a) (s_arr %s))) (= (select %s a) (select %s a))) :pattern ((select %s a))))", arg(0), nw, old, nw))
+			vc.assume(fmt.Sprintf("(forall ((a Int)) (! (=> (not (and (= (akind a) 1) (= (ea_arr a) (s_arr %s)))) (= (select %s a) (select %s a))) :pattern ((select %s a))))", arg(0), nw, old, nw))
 		}
 		if v != nil {
 			fr.havocVal(v, "copy")
@@ -978,7 +1052,7 @@ func (fr *frame) appendBuiltin(v ssa.Value, c *ssa.CallCommon, st *State, g stri
 		vc.havocClass(st, cl)
 		nw := st.heap[cl]
 		// unchanged outside the appended range of the result array (and outside the fresh array)
-		vc.assume(fmt.Sprintf("(forall ((a Int)) (! (=> (and (not (= (ea_arr a) %s)) (not (and (= (ea_arr a) %s) (>= (ea_idx a) (+ %s %s)) (< (ea_idx a) (+ %s %s))))) (= (select %s a) (select %s a))) :pattern ((select %s a))))",
+		vc.assume(fmt.Sprintf("(forall ((a Int)) (! (=> (and (not (and (= (akind a) 1) (= (ea_arr a) %s))) (not (and (= (akind a) 1) (= (ea_arr a) %s) (>= (ea_idx a) (+ %s %s)) (< (ea_idx a) (+ %s %s))))) (= (select %s a) (select %s a))) :pattern ((select %s a))))",
 			fresh, rarr, roff, slen, roff, rlen, nw, old, nw))
 	}
 	if _, isStruct := et.Underlying().(*types.Struct); isStruct || isStr {
@@ -1077,7 +1151,10 @@ func (fr *frame) selectInstr(x *ssa.Select, st *State, g string) {
 			// a non-blocking select polls: it is not a communication that can block
 			name := chanFieldName(s.Chan)
 			_ = name
-			st.ghost["polled"] = "1"
+			if _, ok := vc.P.Ghosts["polled"]; !ok {
+				vc.P.Ghosts["polled"] = &GhostDecl{Name: "polled", Sort: "Bool", Init: "false"}
+			}
+			st.ghost["polled"] = "true"
 			continue
 		}
 		fr.chanEvent(kind, s.Chan, st, g, x.Pos())
@@ -1155,7 +1232,11 @@ func (fr *frame) loopHeader(b *ssa.BasicBlock, li *loopInfo, states []*State, co
 	st := pre.clone()
 	all, classes := fr.loopModifies(li)
 	if all {
-		vc.havocAll(st, "loop")
+		// everything may change, except local cells the loop body cannot write
+		vc.havocAllKeep(st, func(c localCell) bool {
+			a, ok := c.alloc.(*ssa.Alloc)
+			return ok && !fr.allocWrittenIn(li, a)
+		})
 	} else {
 		for _, c := range classes {
 			vc.havocClass(st, c)
@@ -1172,7 +1253,7 @@ func (fr *frame) loopHeader(b *ssa.BasicBlock, li *loopInfo, states []*State, co
 	for k := range st.ghost {
 		st.ghost[k] = vc.freshConst("ghost_"+k, vc.ghostSort(k))
 		if vc.ghostSort(k) == "Int" {
-			vc.assume("(>= " + st.ghost[k] + " " + pre.ghost[k] + ")")
+			vc.assume("(>= " + st.ghost[k] + " " + ghostGet(pre, k, "0") + ")")
 		}
 	}
 	// ghost counters that the body may create later must exist at the header too
@@ -1192,6 +1273,18 @@ func (fr *frame) loopHeader(b *ssa.BasicBlock, li *loopInfo, states []*State, co
 		env.loopHeader = b
 		f := env.trBool(c.E)
 		vc.assumeG(bg, f)
+	}
+	// `loop N assume e`: assumed (not proved) at every iteration; listed in the evidence
+	if fr.contract != nil {
+		for _, c := range fr.contract.Get("loop-assume") {
+			if c.Loop != li.ordinal {
+				continue
+			}
+			env := fr.specEnvAt(st)
+			env.loopHeader = b
+			vc.note("ASSUMED on " + fr.contract.Name + " at every iteration of loop " + fmt.Sprint(li.ordinal) + ": " + c.Text)
+			vc.assumeG(bg, env.trBool(c.E))
+		}
 	}
 	// implicit invariant: the function's frame condition holds at every iteration (checked again on the back edge)
 	if fr.top && fr.contract != nil {
